@@ -522,8 +522,8 @@ class BuildIndexTask(T.Task):
 
 # ------------------------------------------------------------------------------------------ bundled registry
 def spec_candidates(group):
-    prim = [e for e in group if e["primary"]]
-    rest = [e for e in group if not e["primary"]]
+    prim = [e for e in group if e.get("primary")]
+    rest = [e for e in group if not e.get("primary")]
     return [e["bic"] for e in prim + rest if e["bic"]]
 
 
